@@ -8,7 +8,7 @@
    result, one token per event:
      "!" ill-formed event, "?invalid" message does not decode, "F.<fault>" (stops the run), or
      items joined by "+":  c<c>  g<c>  i<c>:<hex name>  e<origin>/<scope>/<hex message>
-       origin: c<c> | d | l       scope: r<c> | m | t<c> | b | s<c> | x<c> | k<c> (kept message released); for a big-endian message addressed to the driver a
+       origin: c<c> | d | l       scope: r<c>:<addressee: client | - nobody | ? not a unique name> | m | t<c> | b | s<c> | x<c> | k<c> (kept message released); for a big-endian message addressed to the driver a
        second hex string follows: the same message converted to little endian
    (TRecv items are not printed.)
    mint <major> <minor> <hex name>*   ->  "<hex name> <major> <minor>" | "fault.<kind>"
@@ -52,7 +52,8 @@ let parse_event (tok : string) : event option =
 
 let show_origin = function OClient c -> "c" ^ string_of_int (int_of_n c) | ODriver -> "d" | OLocal -> "l"
 let show_scope = function
-  | SRouted c -> "r" ^ string_of_int (int_of_n c) | SMonitors -> "m" | STo c -> "t" ^ string_of_int (int_of_n c)
+  | SRouted (c, a) -> "r" ^ string_of_int (int_of_n c) ^ (match a with AUnknown -> ":?" | ANobody -> ":-" | ATo r -> ":" ^ string_of_int (int_of_n r))
+  | SMonitors -> "m" | STo c -> "t" ^ string_of_int (int_of_n c)
   | SBroadcast -> "b" | SSelf c -> "s" ^ string_of_int (int_of_n c) | SMatches c -> "x" ^ string_of_int (int_of_n c)
   | SReleased c -> "k" ^ string_of_int (int_of_n c)
 
